@@ -1,4 +1,5 @@
 """C06 - Fourier amplitude spectrum is dt x DFT of the zero-padded record on the stated grid."""
+import hashlib
 import math
 
 import numpy as np
@@ -15,16 +16,47 @@ PROPERTY = "C06"
 CLAUSES = []
 ASSUMPTIONS = [
     "reference = direct O(N^2) DFT (matrix product, long double twiddles) for N <= 512, numpy.fft.fft of the explicitly zero-padded "
-    "record above that (trusted base)",
-    "requested n >= npts (padding, not truncation); records finite, n 2..9000 (quick <= 2500)",
-    "value tolerance 1e-12*dt*sum|x| per bin (FFT rounding ~ eps*log2(N)*sum|x|); frequency tolerance 4 eps relative",
+    "record above that (trusted base); in the mid-range / giant clauses additionally a direct float64 DFT sum (exact integer phase "
+    "reduction) at a hashed sample of bins and Parseval's identity with the bins the one-sided spectrum lacks computed directly",
+    "requested n >= npts (padding, not truncation); records finite; drawn n 2..9000 (quick <= 2500), mid-range ladder 2 000..300 000 "
+    "(thorough 2 000 000), giant 2^14..2^16 (+-) (thorough ..2^21); records are float64 arrays or int64 / list / non-contiguous / "
+    "negative-stride / read-only variants holding such values (narrow integer dtypes and float32 are handled centrally, not here)",
+    "dt: log-uniform 1e-4..100, the repository's time steps, and python integers 1, 2, 5",
+    "value tolerance per bin |dt| (1e-12 sum|x| + 8 eps log2(N) sqrt(N) ||x||_2): component-wise FFT bound c eps log2(N) sum|x| with "
+    "c log2 N <= 4500, plus the norm-wise bound (Higham, Accuracy and Stability, thm 24.2) which dominates for heavily padded short "
+    "records; two entry points that both satisfy it agree within twice that - asserted as such, not as bit-equality; "
+    "frequency tolerance 4 eps relative (k/(N dt), k * (1/(N dt)), linspace all fit)",
+    "when BOTH p2_plus and n are given the statement does not say which wins: N must be one of the two and the object level and "
+    "the array level must pick the same one",
     "inverse helper: spectra of even N (every padded N and the even-length unpadded case): the positive-bin spectrum of an odd-length "
-    "transform does not determine an even-length record",
-    "dominant period: any bin whose amplitude is within 1e-12 of the maximum is accepted (ties); bin 0 maps to an infinite period",
+    "transform does not determine an even-length record; tolerance 1e-12 max|x| max(1, log2 N) + 16 eps log2(N) ||x||_2 (norm-wise "
+    "round-trip bound); the returned object is a Signal (an AccSignal when stype='acc') holding those values and dt - which class "
+    "the default / 'signal' request yields is not part of the statement",
+    "dominant period: any bin whose reference amplitude is within twice the value tolerance (+1e-12 relative) of the maximum is "
+    "accepted (ties); the spectrum meant is the one the object currently reports or its default one; bin 0 has frequency 0, its "
+    "period 1/0 is +inf (a ZeroDivisionError / FloatingPointError is the same arithmetic fact and accepted; a finite period is not)",
+    "the Fourier moments / Boore bandwidth helpers listed among the anchors are not the subject of any sentence of the statement: "
+    "not checked",
 ]
 EPS = np.finfo(float).eps
 LD = np.longdouble
 MAX_N = 2500 if core.tier() == "quick" else 9000
+
+
+def _hh(*parts):
+    return int(hashlib.blake2b(":".join(str(p) for p in parts).encode(), digest_size=8).hexdigest(), 16)
+
+
+def _hu(*parts):
+    return (_hh(*parts) % 10 ** 6) / 1e6
+
+
+def _hint(lo, hi, *parts):
+    """log-uniform integer in [lo, hi] by hash."""
+    lo, hi = int(lo), int(hi)
+    if hi <= lo:
+        return lo
+    return min(hi, max(lo, int(math.exp(math.log(lo) + (math.log(hi + 1) - math.log(lo)) * _hu(*parts)))))
 
 
 def dft_ref(x, N):
@@ -41,6 +73,18 @@ def dft_ref(x, N):
     return np.fft.fft(pad)
 
 
+def dft_bins(x, N, ks):
+    """X_k at the listed bins by the defining sum in float64; the phase k*j mod N is reduced in integers, so each term is good to
+    ~2 eps |x_j| and the pairwise sum to a few eps sum|x| (far inside the value tolerance)."""
+    x = np.asarray(x, dtype=float)
+    j = np.arange(len(x), dtype=np.int64)
+    out = np.zeros(len(ks), dtype=complex)
+    for i, k in enumerate(ks):
+        ang = (-2 * math.pi / N) * ((int(k) * j) % N).astype(float)
+        out[i] = np.sum(x * np.cos(ang)) + 1j * np.sum(x * np.sin(ang))
+    return out
+
+
 def next_pow2(n, plus=0):
     p = 1
     e = 0
@@ -48,6 +92,46 @@ def next_pow2(n, plus=0):
         p *= 2
         e += 1
     return 2 ** (e + plus)
+
+
+class Rec(object):
+    """A record: what the caller hands over (`arg`) and the float64 values it stands for (`x`), with the sums the tolerances use."""
+
+    def __init__(self, arg, x):
+        self.arg = arg
+        self.x = np.asarray(x, dtype=float)
+        self.n = len(self.x)
+        self.sumabs = float(np.sum(np.abs(self.x)))
+        self.norm2 = float(np.sqrt(np.sum(self.x ** 2)))
+        self.top = float(np.max(np.abs(self.x))) if self.n else 0.0
+        self._X = {}
+
+    def X(self, N):
+        """reference transform of the record zero-padded to N (memoised: at most two lengths are kept)."""
+        if N not in self._X:
+            if len(self._X) >= 2:
+                self._X.pop(next(iter(self._X)))
+            self._X[N] = dft_ref(self.x, N)
+        return self._X[N]
+
+    def tol(self, N, dt):
+        """per-bin value tolerance of a spectrum of N points (see ASSUMPTIONS)."""
+        return abs(dt) * (1e-12 * self.sumabs + 8 * EPS * math.log2(max(2, N)) * math.sqrt(N) * self.norm2) + core.TINY
+
+
+def _container(spec, a0):
+    how = spec.get("as")
+    if how == "int":
+        top = float(np.max(np.abs(a0))) if len(a0) else 0.0
+        s = 10.0 ** (3 + _hh("int", len(a0), spec.get("seed", 0)) % 4) / top if 0 < top < 1e3 else 1.0
+        arg = np.array(np.round(a0 * s), dtype=np.int64)
+        return Rec(arg, arg.astype(float))
+    arg = gen.as_container(spec, a0)
+    return Rec(arg, np.array(arg, dtype=float))
+
+
+def _dts():
+    return st.one_of(gen.dts(1e-4, 1.0), gen.dts(1e-4, 1.0), gen.log_uniform(1.0, 100.0), st.sampled_from([1, 2, 5]))
 
 
 _lengths = st.one_of(
@@ -59,91 +143,168 @@ _lengths = st.one_of(
 
 
 @st.composite
-def _rec(draw, min_n=2):
+def _rec(draw, min_n=2, containers=False):
     n = max(min_n, draw(_lengths))
     if n <= 40:
-        spec = draw(gen.record_specs(min_n=n, max_n=n, small_max=n, allow_zero_runs=False))
+        spec = draw(gen.record_specs(min_n=n, max_n=n, small_max=n, allow_zero_runs=False, allow_int=containers))
     else:
-        spec = draw(gen.record_specs(min_n=n, max_n=n, kinds=["noise", "sines", "pulse", "step", "walk", "const", "quake"], allow_zero_runs=False))
+        spec = draw(gen.record_specs(min_n=n, max_n=n, kinds=["noise", "sines", "pulse", "step", "walk", "const", "quake"], allow_zero_runs=False,
+                                     allow_int=containers))
     return spec
+
+
+_FIRST = ["fa_spectrum", "fa_freqs", "fa_frequencies", "fa_spectrum_abs"]
 
 
 @st.composite
 def _def_cases(draw):
-    spec = draw(_rec())
+    spec = draw(_rec(containers=True))
     n = len(gen.build(spec))
-    return {"rec": spec, "dt": draw(gen.dts(1e-4, 1.0)), "p2": draw(st.integers(0, 3)),
-            "n_req": n + draw(st.one_of(st.integers(0, 3), st.integers(0, n))), "acc": draw(st.booleans())}
+    extra = draw(st.one_of(st.integers(0, 3), st.integers(0, n), st.integers(n, 7 * n)))
+    return {"rec": spec, "dt": draw(_dts()), "p2": draw(st.integers(0, 3)), "n_req": n + extra, "acc": draw(st.booleans()),
+            "first": draw(st.sampled_from(_FIRST))}
 
 
-def _check_spectrum(ctx, what, got_s, got_f, x, dt, N, sumabs):
+def _freqs(pts, N, dt):
+    return np.arange(pts) / (N * dt)
+
+
+def _check_spectrum(ctx, what, got_s, got_f, rec, dt, N, bins=None, parseval=False):
+    """The spectrum / frequency pair is that of the record zero-padded to N: bins 0..N/2-1 of dt*DFT at k/(N dt)."""
     pts = N // 2
     got_s = np.asarray(got_s)
     got_f = np.asarray(got_f)
-    ctx.shape(got_s, (pts,), what + " spectrum (N=%d)" % N)
-    ctx.shape(got_f, (pts,), what + " frequencies (N=%d)" % N)
-    X = dft_ref(x, N)[:pts]
-    ctx.close(got_s, dt * X, 1e-12 * dt * sumabs + core.TINY, what + " spectrum vs dt*DFT (N=%d, npts=%d)" % (N, len(x)))
-    want_f = np.arange(pts) / (N * dt)
-    ctx.close(got_f, want_f, 4 * EPS * want_f, what + " frequencies vs k/(N*dt) (N=%d, npts=%d)" % (N, len(x)))
+    ctx.shape(got_s, (pts,), what + " spectrum (N=%d, npts=%d)" % (N, rec.n))
+    ctx.shape(got_f, (pts,), what + " frequencies (N=%d, npts=%d)" % (N, rec.n))
+    tol = rec.tol(N, dt)
+    X = rec.X(N)
+    ctx.close(got_s, dt * X[:pts], tol, what + " spectrum vs dt*DFT (N=%d, npts=%d)" % (N, rec.n))
+    want_f = _freqs(pts, N, dt)
+    ctx.close(got_f, want_f, 4 * EPS * want_f, what + " frequencies vs k/(N*dt) (N=%d, npts=%d)" % (N, rec.n))
+    if bins is not None and len(bins):
+        ks = np.asarray(bins, dtype=int)
+        keep = max(6, int(4e6 // max(1, rec.n)))          # the defining sum costs O(npts) per bin
+        if len(ks) > keep:
+            ks = np.concatenate([ks[:2], ks[2:-1][::max(1, (len(ks) - 3) // max(1, keep - 3))][:keep - 3], ks[-1:]])
+        ctx.close(got_s[ks], dt * dft_bins(rec.x, N, ks), tol, what + " spectrum vs the defining sum at bins %s... (N=%d, npts=%d)" % (ks[:5].tolist(), N, rec.n))
+    if parseval:
+        _check_parseval(ctx, what, got_s, rec, dt, N)
+
+
+def _check_parseval(ctx, what, got_s, rec, dt, N):
+    """dt*sum x^2 == (1/(N dt)) * sum over all N bins |F_k|^2; the one-sided spectrum supplies bins 0..N/2-1, its mirror the negative
+    frequencies, the defining sum the remaining (Nyquist / top) bin(s)."""
+    pts = N // 2
+    s = np.asarray(got_s)
+    total = float(np.abs(s[0]) ** 2 + 2 * np.sum(np.abs(s[1:]) ** 2)) if pts else 0.0
+    covered = 2 * pts - 1 if pts else 0
+    if pts == 0:
+        missing = list(range(N))
+    elif N % 2 == 0:
+        missing = [N // 2]
+    else:
+        missing = [(N - 1) // 2, (N + 1) // 2]
+    assert covered + len(missing) == N
+    Xm = dft_bins(rec.x, N, missing) * dt
+    total += float(np.sum(np.abs(Xm) ** 2))
+    energy = abs(dt) * float(np.sum(rec.x.astype(LD) ** 2))
+    ctx.check(abs(total / (N * abs(dt)) - energy) <= 1e-10 * energy + core.TINY,
+              "%s: Parseval: dt*sum x^2 = %r but the spectrum gives %r (N=%d, npts=%d)" % (what, energy, total / (N * abs(dt)), N, rec.n))
+
+
+def _agree(ctx, what, pair, ref_s, ref_f, rec, dt, N):
+    """Two entry points report the same spectrum: equal shapes, values within twice the value tolerance, grids within 8 eps."""
+    s, f = np.asarray(pair[0]), np.asarray(pair[1])
+    ctx.close(s, np.asarray(ref_s), 2 * rec.tol(N, dt), what + " spectrum")
+    ctx.close(f, np.asarray(ref_f), 8 * EPS * np.abs(np.asarray(ref_f)), what + " frequencies")
+
+
+def _check_spectrum_any(ctx, what, got_s, got_f, rec, dt, cands, **kw):
+    """_check_spectrum for the first transform length of `cands` that fits (both options given: either may win)."""
+    first = None
+    for N in cands:
+        try:
+            _check_spectrum(ctx, what, got_s, got_f, rec, dt, N, **kw)
+            return N
+        except core.Violation as v:
+            first = first or v
+    raise first
+
+
+def _both_N(ctx, what, got_s, n, p2, Nr):
+    """Which of the two admissible transform lengths a call given both p2_plus and n used."""
+    pts = len(np.asarray(got_s))
+    cands = [N for N in (Nr, next_pow2(n, p2)) if N // 2 == pts]
+    ctx.check(bool(cands), "%s: %d bins - neither the requested n=%d (%d bins) nor 2^(ceil(log2 %d)+%d)=%d (%d bins)" % (
+        what, pts, Nr, Nr // 2, n, p2, next_pow2(n, p2), next_pow2(n, p2) // 2))
+    return cands
 
 
 @clause(CLAUSES, "definition", _def_cases(), quick=400, thorough=2500,
-        rule="records of every length class (2..40 element-wise, up to 2000 by recipe, 2^e-1/2^e/2^e+1, odd), all dt, p2_plus 0..3, requested n >= npts "
-             "(odd and even), Signal and AccSignal; non-trivial = non-zero record; classes record whether N is odd / a power of two",
-        oracle="reference model: dt * direct DFT of the zero-padded record, bins 0..N/2-1 at k/(N dt); differential: object vs array level (exact)",
+        rule="records of every length class (2..40 element-wise, up to 2500 by recipe, 2^e-1/2^e/2^e+1, odd) in every container, all dt, "
+             "p2_plus 0..3, requested n from npts to 8 npts (odd and even), both options together, Signal and AccSignal, each of the four lazy "
+             "attributes read first; non-trivial = non-zero record; classes record whether N is odd / a power of two",
+        oracle="reference model: dt * direct DFT of the zero-padded record, bins 0..N/2-1 at k/(N dt); object vs array level and Signal vs "
+               "AccSignal within twice the value tolerance",
         require={"N-odd": 0.15, "npts-not-pow2": 0.3})
 def definition(case, ctx):
-    x = gen.build(case["rec"])
-    n = len(x)
+    rec = _container(case["rec"], gen.build(case["rec"]))
+    n = rec.n
     dt = case["dt"]
-    sumabs = float(np.sum(np.abs(x)))
-    ctx.nt(bool(np.any(x)))
+    ctx.nt(bool(np.any(rec.x)))
     ctx.cls(gen.size_class(n), "npts-pow2" if next_pow2(n) == n else "npts-not-pow2", "npts-odd" if n % 2 else "npts-even",
-            "acc" if case["acc"] else "sig")
+            "acc" if case["acc"] else "sig", "dt-int" if isinstance(dt, int) else None, "as=" + case["rec"]["as"] if case["rec"].get("as") else None)
     cls = eqsig.AccSignal if case["acc"] else eqsig.Signal
-    sig = ctx.lib(cls, x, dt)
-    other = ctx.lib(eqsig.Signal if case["acc"] else eqsig.AccSignal, x, dt)
-    # default: next power of two
+    sig = ctx.lib(cls, rec.arg, dt)
+    other = ctx.lib(eqsig.Signal if case["acc"] else eqsig.AccSignal, rec.arg, dt)
+    # default: next power of two; any of the four lazily loaded attributes may be the first one read
     N0 = next_pow2(n)
+    first = case.get("first", "fa_spectrum")
+    ctx.cls("first=" + first)
+    got_first = np.array(ctx.lib(lambda: getattr(sig, first)))
     s0 = np.array(ctx.lib(lambda: sig.fa_spectrum))
     f0 = np.array(ctx.lib(lambda: sig.fa_freqs))
-    _check_spectrum(ctx, "Signal.fa_spectrum", s0, f0, x, dt, N0, sumabs)
-    ctx.equal(ctx.lib(lambda: sig.fa_frequencies), f0, "fa_frequencies alias")
-    ctx.equal(ctx.lib(lambda: sig.fa_spectrum_abs), np.abs(s0), "fa_spectrum_abs")
-    ctx.equal(ctx.lib(lambda: cls(x, dt).fa_spectrum_abs), np.abs(s0), "fa_spectrum_abs read first on a fresh object")
-    ctx.equal(ctx.lib(lambda: other.fa_spectrum), s0, "Signal vs AccSignal spectrum")
-    ctx.equal(ctx.lib(lambda: other.fa_freqs), f0, "Signal vs AccSignal frequencies")
-    gs, gf = ctx.lib(fr.generate_fa_spectrum, sig)
-    ctx.equal(gs, s0, "generate_fa_spectrum(n_pad=True) vs object")
-    ctx.equal(gf, f0, "generate_fa_spectrum(n_pad=True) frequencies vs object")
+    _check_spectrum(ctx, "Signal.fa_spectrum", s0, f0, rec, dt, N0)
+    tol0 = rec.tol(N0, dt)
+    want_first = {"fa_spectrum": s0, "fa_freqs": f0, "fa_frequencies": f0, "fa_spectrum_abs": np.abs(s0)}[first]
+    ctx.close(got_first, want_first, 2 * tol0 if "spectrum" in first else 8 * EPS * f0, "%s read first on a fresh object" % first)
+    ctx.close(np.asarray(ctx.lib(lambda: sig.fa_frequencies)), f0, 8 * EPS * f0, "fa_frequencies alias")
+    sabs = np.asarray(ctx.lib(lambda: sig.fa_spectrum_abs))
+    ctx.check(not np.iscomplexobj(sabs), "fa_spectrum_abs is complex")
+    ctx.close(sabs, np.abs(s0), 4 * EPS * np.abs(s0), "fa_spectrum_abs vs |fa_spectrum|")
+    _agree(ctx, "Signal vs AccSignal", (ctx.lib(lambda: other.fa_spectrum), ctx.lib(lambda: other.fa_freqs)), s0, f0, rec, dt, N0)
+    _agree(ctx, "generate_fa_spectrum(sig) vs object", ctx.lib(fr.generate_fa_spectrum, sig), s0, f0, rec, dt, N0)
+    _agree(ctx, "generate_fa_spectrum(sig, n_pad=True) vs object", ctx.lib(fr.generate_fa_spectrum, sig, n_pad=True), s0, f0, rec, dt, N0)
     # p2_plus
     p2 = case["p2"]
     Np = next_pow2(n, p2)
     ctx.lib(sig.gen_fa_spectrum, p2_plus=p2)
     sp, fp = np.array(sig.fa_spectrum), np.array(sig.fa_freqs)
-    _check_spectrum(ctx, "gen_fa_spectrum(p2_plus=%d)" % p2, sp, fp, x, dt, Np, sumabs)
-    cs, cf = ctx.lib(fr.calc_fa_spectrum, sig, p2_plus=p2)
-    ctx.equal(cs, sp, "calc_fa_spectrum(p2_plus) vs object")
-    ctx.equal(cf, fp, "calc_fa_spectrum(p2_plus) frequencies vs object")
+    _check_spectrum(ctx, "gen_fa_spectrum(p2_plus=%d)" % p2, sp, fp, rec, dt, Np)
+    _agree(ctx, "calc_fa_spectrum(p2_plus=%d) vs object" % p2, ctx.lib(fr.calc_fa_spectrum, sig, p2_plus=p2), sp, fp, rec, dt, Np)
     # explicit n
     Nr = case["n_req"]
-    ctx.cls("N-odd" if Nr % 2 or n % 2 else None)
+    ctx.cls("N-odd" if Nr % 2 or n % 2 else None, "n_req>2npts" if Nr > 2 * n else None)
     ctx.lib(sig.gen_fa_spectrum, n=Nr)
     sr, frq = np.array(sig.fa_spectrum), np.array(sig.fa_freqs)
-    _check_spectrum(ctx, "gen_fa_spectrum(n=%d)" % Nr, sr, frq, x, dt, Nr, sumabs)
-    cs, cf = ctx.lib(fr.calc_fa_spectrum, sig, n=Nr)
-    ctx.equal(cs, sr, "calc_fa_spectrum(n) vs object")
-    ctx.equal(cf, frq, "calc_fa_spectrum(n) frequencies vs object")
+    _check_spectrum(ctx, "gen_fa_spectrum(n=%d)" % Nr, sr, frq, rec, dt, Nr)
+    _agree(ctx, "calc_fa_spectrum(n=%d) vs object" % Nr, ctx.lib(fr.calc_fa_spectrum, sig, n=Nr), sr, frq, rec, dt, Nr)
+    # both options: N is one of the two, the same at both levels
+    ctx.lib(sig.gen_fa_spectrum, p2_plus=p2, n=Nr)
+    sb, fb = np.array(sig.fa_spectrum), np.array(sig.fa_freqs)
+    cands = _both_N(ctx, "gen_fa_spectrum(p2_plus=%d, n=%d)" % (p2, Nr), sb, n, p2, Nr)
+    Nb = _check_spectrum_any(ctx, "gen_fa_spectrum(p2_plus=%d, n=%d)" % (p2, Nr), sb, fb, rec, dt, cands)
+    cb = ctx.lib(fr.calc_fa_spectrum, sig, n=Nr, p2_plus=p2)
+    ctx.check(len(np.asarray(cb[0])) == len(sb), "calc_fa_spectrum(n=%d, p2_plus=%d) has %d bins, gen_fa_spectrum(p2_plus=%d, n=%d) has %d" % (
+        Nr, p2, len(np.asarray(cb[0])), p2, Nr, len(sb)))
+    _agree(ctx, "calc_fa_spectrum(n=%d, p2_plus=%d) vs object" % (Nr, p2), cb, sb, fb, rec, dt, Nb)
     # unpadded array-level variants: N = npts
     us, uf = ctx.lib(fr.calc_fa_spectrum, sig)
-    _check_spectrum(ctx, "calc_fa_spectrum (unpadded)", us, uf, x, dt, n, sumabs)
-    vs, vf = ctx.lib(fr.generate_fa_spectrum, sig, n_pad=False)
-    ctx.equal(vs, us, "generate_fa_spectrum(n_pad=False) vs calc_fa_spectrum()")
-    ctx.equal(vf, uf, "generate_fa_spectrum(n_pad=False) frequencies vs calc_fa_spectrum()")
+    _check_spectrum(ctx, "calc_fa_spectrum (unpadded)", us, uf, rec, dt, n)
+    _agree(ctx, "generate_fa_spectrum(n_pad=False) vs calc_fa_spectrum()", ctx.lib(fr.generate_fa_spectrum, sig, n_pad=False), us, uf, rec, dt, n)
     # back to the default
     ctx.lib(sig.generate_fa_spectrum)
-    ctx.equal(sig.fa_spectrum, s0, "generate_fa_spectrum() restores the default spectrum")
+    _check_spectrum(ctx, "after generate_fa_spectrum() (default restored)", ctx.lib(lambda: sig.fa_spectrum), ctx.lib(lambda: sig.fa_freqs), rec, dt, N0)
 
 
 @st.composite
@@ -151,15 +312,41 @@ def _cons_cases(draw):
     spec = draw(_rec())
     n = len(gen.build(spec))
     spec_b = draw(gen.record_specs(min_n=n, max_n=n, small_max=n, kinds=["noise", "sines", "walk"], allow_zero_runs=False))
-    return {"a": spec, "b": spec_b, "alpha": draw(gen.scalars()), "beta": draw(gen.scalars()), "dt": draw(gen.dts(1e-4, 1.0)),
-            "zfrac": draw(st.floats(0, 1, allow_nan=False)), "padded": draw(st.booleans())}
+    return {"a": spec, "b": spec_b, "alpha": draw(gen.scalars()), "beta": draw(gen.scalars()), "dt": draw(_dts()),
+            "zfrac": draw(st.floats(0, 1, allow_nan=False)), "padded": draw(st.booleans()),
+            "variant": draw(st.sampled_from(["default", "unpadded", "p2", "n"])), "p2": draw(st.integers(1, 3)), "extra": draw(st.integers(0, 3 * n)),
+            "acc": draw(st.booleans())}
+
+
+def _variant_spec(ctx, case, x, dt, N_fixed=None):
+    """(spectrum, frequencies, N) of record x under the padding variant of the case; N_fixed pins an explicit n."""
+    v = case.get("variant") or ("default" if case["padded"] else "unpadded")
+    s = (eqsig.AccSignal if case.get("acc") else eqsig.Signal)(x, dt)
+    n = len(x)
+    if v == "default":
+        return np.array(ctx.lib(lambda: s.fa_spectrum)), np.array(ctx.lib(lambda: s.fa_freqs)), next_pow2(n)
+    if v == "unpadded":
+        out = ctx.lib(fr.calc_fa_spectrum, s)
+        return np.array(out[0]), np.array(out[1]), n
+    if v == "p2":
+        if n % 2:
+            ctx.lib(s.gen_fa_spectrum, p2_plus=case["p2"])
+            return np.array(s.fa_spectrum), np.array(s.fa_freqs), next_pow2(n, case["p2"])
+        out = ctx.lib(fr.calc_fa_spectrum, s, p2_plus=case["p2"])
+        return np.array(out[0]), np.array(out[1]), next_pow2(n, case["p2"])
+    N = N_fixed
+    if N % 2:
+        out = ctx.lib(fr.calc_fa_spectrum, s, n=N)
+        return np.array(out[0]), np.array(out[1]), N
+    ctx.lib(s.gen_fa_spectrum, n=N)
+    return np.array(s.fa_spectrum), np.array(s.fa_freqs), N
 
 
 @clause(CLAUSES, "consequences", _cons_cases(), quick=400, thorough=2500,
-        rule="pairs of records of equal length, alpha/beta as in C02, trailing-zero counts that keep N fixed, padded and unpadded variants; "
-             "non-trivial = both records non-zero",
-        oracle="metamorphic: linearity (1e-12*dt*sum|terms|), trailing zeros within the same N leave the spectrum unchanged (exact), "
-               "Parseval with the missing bins supplied by the reference (1e-10 relative)")
+        rule="pairs of records of equal length, alpha/beta as in C02, trailing-zero counts that keep N fixed, every padding variant (default, "
+             "unpadded, p2_plus, explicit n; object or array level); non-trivial = both records non-zero",
+        oracle="metamorphic: linearity (value tolerance of the terms), trailing zeros within the same N leave spectrum and grid unchanged "
+               "(twice the value tolerance), Parseval with the missing bins supplied by the defining sum (1e-10 relative)")
 def consequences(case, ctx):
     a = gen.build(case["a"])
     b = gen.build(case["b"])
@@ -168,55 +355,72 @@ def consequences(case, ctx):
         b = np.resize(b, n)
     dt = case["dt"]
     al, be = case["alpha"], case["beta"]
+    v = case.get("variant") or ("default" if case["padded"] else "unpadded")
     ctx.nt(bool(np.any(a) and np.any(b)))
-    ctx.cls(gen.size_class(n), "padded" if case["padded"] else "unpadded", "npts-odd" if n % 2 else "npts-even")
-
-    def spec(x):
-        s = eqsig.Signal(x, dt)
-        if case["padded"]:
-            return np.array(ctx.lib(lambda: s.fa_spectrum)), np.array(s.fa_freqs)
-        out = ctx.lib(fr.calc_fa_spectrum, s)
-        return np.array(out[0]), np.array(out[1])
-    sa, fa = spec(a)
-    sb, _ = spec(b)
-    sc, _ = spec(al * a + be * b)
-    tol = 1e-12 * dt * float(np.sum(abs(al) * np.abs(a) + abs(be) * np.abs(b))) + core.TINY
-    ctx.close(sc, al * sa + be * sb, tol, "linearity of the Fourier amplitude spectrum")
-    # trailing zeros that do not change N (default padding only)
-    N = next_pow2(n)
-    room = N - n
+    ctx.cls(gen.size_class(n), "variant=" + v, "npts-odd" if n % 2 else "npts-even")
+    Nn = n + case.get("extra", 0)
+    sa, fa, N = _variant_spec(ctx, case, a, dt, Nn)
+    sb, _, _ = _variant_spec(ctx, case, b, dt, Nn)
+    sc, fc, _ = _variant_spec(ctx, case, al * a + be * b, dt, Nn)
+    ra = Rec(a, a)
+    terms = Rec(None, abs(al) * np.abs(a) + abs(be) * np.abs(b))
+    ctx.shape(sa, (N // 2,), "spectrum (variant %s, N=%d)" % (v, N))
+    ctx.close(sc, al * sa + be * sb, 3 * terms.tol(N, dt), "linearity of the Fourier amplitude spectrum (variant %s)" % v)
+    ctx.close(fc, _freqs(N // 2, N, dt), 4 * EPS * _freqs(N // 2, N, dt), "frequencies (variant %s, N=%d)" % (v, N))
+    # trailing zeros that do not change N
+    room = {"default": next_pow2(n) - n, "p2": next_pow2(n) - n, "n": Nn - n, "unpadded": 0}[v]
     z = int(round(case["zfrac"] * room))
     if z > 0:
         ctx.cls("trailing-zeros")
-        s2 = eqsig.Signal(np.concatenate([a, np.zeros(z)]), dt)
-        ctx.equal(ctx.lib(lambda: s2.fa_spectrum), eqsig.Signal(a, dt).fa_spectrum, "spectrum after appending %d zeros (same N=%d)" % (z, N))
-        ctx.equal(s2.fa_freqs, eqsig.Signal(a, dt).fa_freqs, "frequencies after appending zeros (same N)")
-    # Parseval: dt*sum x^2 == (1/(N dt)) * sum_k |F_k|^2 over all N bins; the returned half supplies bins 0..N/2-1, its mirror the
-    # negative frequencies, the reference the remaining (Nyquist / top) bin(s)
-    Nn = N if case["padded"] else n
-    pts = Nn // 2
-    X = dft_ref(a, Nn) * dt
-    total = np.abs(sa[0]) ** 2 + 2 * np.sum(np.abs(sa[1:]) ** 2)
-    covered = set([0] + list(range(1, pts)) + [Nn - k for k in range(1, pts)])
-    missing = [k for k in range(Nn) if k not in covered]
-    total = total + float(np.sum(np.abs(X[missing]) ** 2))
-    energy = dt * float(np.sum(a.astype(LD) ** 2))
-    ctx.check(abs(total / (Nn * dt) - energy) <= 1e-10 * energy + core.TINY,
-              "Parseval: dt*sum x^2 = %r but spectrum gives %r (N=%d)" % (energy, total / (Nn * dt), Nn))
+        s2, f2, N2 = _variant_spec(ctx, case, np.concatenate([a, np.zeros(z)]), dt, Nn)
+        assert N2 == N, "trailing zeros changed N"
+        ctx.close(s2, sa, 2 * ra.tol(N, dt), "spectrum after appending %d zeros (same N=%d, variant %s)" % (z, N, v))
+        ctx.close(f2, fa, 8 * EPS * np.abs(fa), "frequencies after appending zeros (same N, variant %s)" % v)
+    _check_parseval(ctx, "variant %s" % v, sa, ra, dt, N)
 
 
 @st.composite
 def _inv_cases(draw):
     spec = draw(_rec())
-    return {"rec": spec, "dt": draw(gen.dts(1e-4, 1.0)), "variant": draw(st.sampled_from(["default", "p2", "n-even", "unpadded-even"])),
-            "p2": draw(st.integers(1, 2)), "extra": draw(st.integers(0, 40)), "stype": draw(st.sampled_from(["signal", "acc"]))}
+    return {"rec": spec, "dt": draw(_dts()), "variant": draw(st.sampled_from(["default", "p2", "n-even", "unpadded-even"])),
+            "p2": draw(st.integers(1, 2)), "extra": draw(st.integers(0, 40)), "stype": draw(st.sampled_from(["signal", "acc", "default", "acc-signal"]))}
+
+
+def _inverse_want(x, N):
+    pad = np.zeros(N)
+    pad[:len(x)] = x
+    alt = 1.0 - 2.0 * (np.arange(N) % 2)
+    nyq = np.sum(pad * alt) / N
+    return pad - pad.mean() - nyq * alt
+
+
+def _check_inverse(ctx, what, F, rec, dt, N, stype, form="kw"):
+    """fas2values / fas2signal of a one-sided spectrum of even N rebuild the padded record minus its mean and Nyquist components."""
+    want = _inverse_want(rec.x, N)
+    tol = 1e-12 * rec.top * max(1.0, math.log2(N)) + 16 * EPS * math.log2(N) * rec.norm2 + core.TINY
+    vals = np.asarray(ctx.lib(fr.fas2values, F, dt))
+    ctx.shape(vals, (N,), "%s: fas2values output (N=%d)" % (what, N))
+    ctx.close(np.real(vals), want, tol, "%s: fas2values real part vs padded record minus mean and Nyquist (N=%d)" % (what, N))
+    ctx.check(float(np.max(np.abs(np.imag(vals)))) <= tol, "%s: fas2values imaginary part not ~0 (N=%d)" % (what, N))
+    if stype == "default":
+        obj = ctx.lib(fr.fas2signal, F, dt)
+    else:
+        obj = ctx.libf(form, fr.fas2signal, ["stype"], F, dt, stype=stype)
+    ctx.check(isinstance(obj, eqsig.Signal), "%s: fas2signal(stype=%s) returned %s, not a signal object" % (what, stype, type(obj).__name__))
+    if stype == "acc":
+        ctx.check(isinstance(obj, eqsig.AccSignal), "%s: fas2signal(stype='acc') returned %s" % (what, type(obj).__name__))
+    ctx.check(obj.dt == dt, "%s: fas2signal dt %r != %r" % (what, obj.dt, dt))
+    ov = np.asarray(ctx.lib(lambda: obj.values))
+    ctx.shape(ov, (N,), "%s: fas2signal values (N=%d)" % (what, N))
+    ctx.close(np.real(ov), want, tol, "%s: fas2signal(stype=%s) values vs padded record minus mean and Nyquist (N=%d)" % (what, stype, N))
+    ctx.check(float(np.max(np.abs(np.imag(ov)))) <= tol, "%s: fas2signal values imaginary part not ~0 (N=%d)" % (what, N))
 
 
 @clause(CLAUSES, "inverse", _inv_cases(), quick=400, thorough=2500,
         rule="spectra of even N from all variants (default padding, p2_plus, even requested n incl. non-powers of two, unpadded even records) "
-             "fed to fas2values / fas2signal; non-trivial = non-zero record",
-        oracle="round trip: real part == zero-padded record minus its mean and Nyquist components (1e-12*max|x|), imaginary part ~ 0, length N, "
-               "returned object type as requested",
+             "fed to fas2values / fas2signal (stype omitted, 'signal', 'acc', another string); non-trivial = non-zero record",
+        oracle="round trip: real part == zero-padded record minus its mean and Nyquist components, imaginary part ~ 0, length N, a signal object "
+               "with that dt; the object's own spectrum is still dt*DFT after it was handed to the helper",
         require={"N-not-pow2": 0.2})
 def inverse(case, ctx):
     x = gen.build(case["rec"])
@@ -241,50 +445,76 @@ def inverse(case, ctx):
             sig = eqsig.Signal(x, dt)
         N = n
         F = np.array(fr.calc_fa_spectrum(sig)[0])
-    ctx.cls("variant=" + v, "N-pow2" if next_pow2(N) == N else "N-not-pow2", gen.size_class(n))
+    ctx.cls("variant=" + v, "N-pow2" if next_pow2(N) == N else "N-not-pow2", gen.size_class(n), "stype=" + case["stype"])
     ctx.nt(bool(np.any(x)))
-    pad = np.zeros(N)
-    pad[:n] = x
-    nyq = np.sum(pad * (-1.0) ** np.arange(N)) / N
-    want = pad - pad.mean() - nyq * (-1.0) ** np.arange(N)
-    scale = float(np.max(np.abs(x))) if np.any(x) else 1.0
+    rec = Rec(x, x)
     if v == "default":
-        # hand over the object's own (cached) spectrum, as a caller naturally does; it must survive the call unchanged
+        # hand over the object's own (cached) spectrum, as a caller naturally does; what the object reports afterwards is still the
+        # spectrum of its record (a helper that scales its argument in place would break the first sentence of the statement)
         own = ctx.lib(lambda: sig.fa_spectrum)
         ctx.lib(fr.fas2values, own, dt)
-        ctx.lib(fr.fas2signal, own, dt, stype=case["stype"])
-        ctx.equal(sig.fa_spectrum, F, "the signal's own Fourier spectrum after it was passed to fas2values / fas2signal")
+        if case["stype"] == "default":
+            ctx.lib(fr.fas2signal, own, dt)
+        else:
+            ctx.lib(fr.fas2signal, own, dt, stype=case["stype"])
+        _check_spectrum(ctx, "the signal's own spectrum after it was passed to fas2values / fas2signal", ctx.lib(lambda: sig.fa_spectrum),
+                        ctx.lib(lambda: sig.fa_freqs), rec, dt, N)
         ctx.cls("own-spectrum")
-    F_before = F.copy()
-    vals = np.asarray(ctx.lib(fr.fas2values, F, dt))
-    ctx.equal(F, F_before, "spectrum argument of fas2values after the call")
-    ctx.shape(vals, (N,), "fas2values output (N=%d)" % N)
-    ctx.close(np.real(vals), want, 1e-12 * scale * max(1.0, math.log2(N)), "fas2values real part vs padded record minus mean and Nyquist (N=%d)" % N)
-    ctx.check(float(np.max(np.abs(np.imag(vals)))) <= 1e-12 * scale * max(1.0, math.log2(N)) + core.TINY, "fas2values imaginary part not ~0")
-    obj = ctx.lib(fr.fas2signal, F, dt, stype=case["stype"])
-    if case["stype"] == "signal":
-        ctx.check(type(obj) is eqsig.Signal, "fas2signal(stype='signal') returned %s" % type(obj).__name__)
-    else:
-        ctx.check(type(obj) is eqsig.AccSignal, "fas2signal(stype='acc') returned %s" % type(obj).__name__)
-    ctx.check(obj.dt == dt, "fas2signal dt %r != %r" % (obj.dt, dt))
-    ctx.equal(np.asarray(obj.values), vals, "fas2signal values vs fas2values")
-    ctx.equal(F, F_before, "spectrum argument of fas2signal after the call")
+    _check_inverse(ctx, "variant %s" % v, F, rec, dt, N, case["stype"], core.call_form(case))
 
 
 @st.composite
 def _dom_cases(draw):
-    n = draw(st.sampled_from([32, 64, 128, 256, 100, 200, 75]))
+    n = draw(st.one_of(st.sampled_from([32, 64, 128, 256, 100, 200, 75]), st.integers(300, 2 * MAX_N)))
     N = next_pow2(n)
-    return {"n": n, "k0": draw(st.integers(1, N // 2 - 1)), "phase": (draw(st.integers(0, 7)) + draw(st.floats(0, 1, allow_nan=False, exclude_max=True))) * math.pi / 4,
+    return {"n": n, "k0": draw(st.one_of(st.integers(1, N // 2 - 1), st.integers(max(1, N // 4), N // 2 - 1))),
+            "phase": (draw(st.integers(0, 7)) + draw(st.floats(0, 1, allow_nan=False, exclude_max=True))) * math.pi / 4,
             "amp": draw(gen.log_uniform(1e-3, 1e3)), "noise": draw(st.sampled_from([0.0, 0.01, 0.1])), "seed": draw(st.integers(0, 10 ** 6)),
-            "dt": draw(gen.dts(1e-3, 0.1)), "arbitrary": draw(st.integers(0, 4)) == 0, "rec": draw(gen.record_specs(min_n=4, max_n=300))}
+            "dt": draw(gen.dts(1e-3, 0.1)), "arbitrary": draw(st.integers(0, 4)) == 0, "rec": draw(gen.record_specs(min_n=4, max_n=300)),
+            "acc": draw(st.integers(0, 2)) > 0, "state": draw(st.sampled_from(["default", "default", "p2", "n"])), "p2": draw(st.integers(1, 2)),
+            "extra": draw(st.integers(0, 300))}
+
+
+def _check_dominant(ctx, what, sig, rec, dt, Ns):
+    """max_fa_period(sig) is the period of a largest-amplitude bin of the spectrum of N points, for one N of the list Ns (the
+    transform length the object currently reports, or its default one)."""
+    try:
+        got = im.max_fa_period(sig)
+    except (ZeroDivisionError, FloatingPointError):
+        got = math.inf
+        ctx.cls("dc-raises")
+    except core.Violation:
+        raise
+    except Exception as e:  # noqa
+        ctx.fail("%s: max_fa_period raised %s: %s" % (what, type(e).__name__, str(e)[:160]))
+    ctx.check(np.ndim(got) == 0, "%s: max_fa_period returned %r" % (what, got))
+    got = float(got)
+    shown = []
+    for N in Ns:
+        pts = N // 2
+        F = np.abs(rec.X(N)[:pts]) * abs(dt)
+        f = _freqs(pts, N, dt)
+        top = float(np.max(F))
+        ok_bins = np.where(F >= top - 2 * rec.tol(N, dt) - 1e-12 * top)[0]
+        for k in ok_bins:
+            if k == 0:
+                if math.isinf(got) and got > 0:
+                    ctx.cls("dominant=bin0")
+                    return
+            elif abs(got - 1.0 / f[k]) <= 1e-12 / f[k]:
+                ctx.cls("dominant-bin>255" if k > 255 else "dominant-bin<=255")
+                return
+        shown.append("N=%d: bin(s) %s, period(s) %s" % (N, ok_bins[:4].tolist(), [math.inf if k == 0 else 1.0 / f[k] for k in ok_bins[:4]]))
+    ctx.fail("%s: max_fa_period=%r but the largest-amplitude bin(s) are %s" % (what, got, "; ".join(shown)))
 
 
 @clause(CLAUSES, "dominant-period", _dom_cases(), quick=400, thorough=2500,
-        rule="sinusoids on the padded Fourier grid with drawn phase in [0, 2pi), amplitude and additive noise, plus arbitrary records; "
+        rule="sinusoids on the padded Fourier grid (records of 32..5000 samples, bins up to N/2-1) with drawn phase in [0, 2pi), amplitude and "
+             "additive noise, plus arbitrary records; Signal and AccSignal; default spectrum or after gen_fa_spectrum(p2_plus / n); "
              "non-trivial = sinusoid case (phase decides the sign of the real part)",
-        oracle="reference model: reported period is 1/f_k of a bin whose |F_k| is within 1e-12 of max|F| (bin 0 -> inf)",
-        require={"phase-real-negative": 0.2})
+        oracle="reference model (own DFT, not the library's spectrum): reported period is 1/f_k of a bin whose |F_k| is within the value "
+               "tolerance of max|F| (bin 0 -> inf)",
+        require={"phase-real-negative": 0.2, "dominant-bin>255": 0.1})
 def dominant_period(case, ctx):
     dt = case["dt"]
     if case["arbitrary"]:
@@ -298,19 +528,39 @@ def dominant_period(case, ctx):
                            + case["noise"] * np.random.RandomState(case["seed"]).standard_normal(n))
         ctx.nt(True)
         ctx.cls("sinusoid", "phase-real-negative" if math.cos(case["phase"]) < 0 else "phase-real-positive")
-    asig = eqsig.AccSignal(x, dt)
-    F = np.abs(np.asarray(asig.fa_spectrum))
-    f = np.asarray(asig.fa_freqs)
-    got = ctx.lib(im.max_fa_period, asig)
-    top = float(np.max(F))
-    ok_bins = np.where(F >= (1 - 1e-12) * top)[0]
-    allowed = [math.inf if f[k] == 0 else 1.0 / f[k] for k in ok_bins]
-    good = any((math.isinf(a_) and math.isinf(got)) or (not math.isinf(a_) and abs(got - a_) <= 1e-12 * a_) for a_ in allowed)
-    ctx.check(good, "max_fa_period=%r but the largest-amplitude bin(s) %s have period(s) %s" % (got, ok_bins.tolist()[:4], allowed[:4]))
+    rec = Rec(x, x)
+    cls = eqsig.AccSignal if case.get("acc", True) else eqsig.Signal
+    ctx.cls("acc" if case.get("acc", True) else "sig")
+    sig = ctx.lib(cls, x, dt)
+    Ns = [next_pow2(rec.n)]
+    state = case.get("state", "default")
+    if state == "p2":
+        ctx.lib(sig.gen_fa_spectrum, p2_plus=case["p2"])
+        Ns = [next_pow2(rec.n, case["p2"])] + Ns
+    elif state == "n":
+        ctx.lib(sig.gen_fa_spectrum, n=rec.n + case["extra"])
+        Ns = [rec.n + case["extra"]] + Ns
+    ctx.cls("state=" + state)
+    _check_dominant(ctx, "max_fa_period (%s spectrum)" % state, sig, rec, dt, Ns)
 
 
 # ---------------------------------------------------------------------------
-# lengths around large powers of two (thorough tier only: FFTs of up to 2^22 points)
+# lengths around large powers of two
+
+
+def _seam_bins(pts, key, count=20):
+    """A sample of bins that always holds the first, the last, and for every k = 5..20 one bin at or next to a multiple of 2^k."""
+    out = {0, 1, pts - 1, pts // 2}
+    k = 5
+    while 2 ** k < pts:
+        m = 1 + _hh(key, "m", k) % max(1, pts // 2 ** k - 1)
+        out.add(min(pts - 1, m * 2 ** k + _hh(key, "d", k) % 3 - 1))
+        k += 1
+    i = 0
+    while len(out) < count and i < 4 * count:
+        out.add(_hh(key, "r", i) % pts)
+        i += 1
+    return sorted(b for b in out if 0 <= b < pts)
 
 
 def _giant_enum(tier, shard, nshards):
@@ -325,24 +575,348 @@ def _giant_enum(tier, shard, nshards):
 
 @enum_clause(CLAUSES, "giant-lengths", _giant_enum,
              rule="record lengths 2^k + j, j in {-1,0,1,2}, k = 14..16 (quick) / 14..21 (thorough, up to 2 097 154 samples): default padding, "
-                  "p2_plus=1 and the unpadded array-level variant",
+                  "p2_plus=1, the unpadded array-level variant, the inverse helper and the dominant period",
              oracle="reference model: N = next power of two >= npts (computed with integers), bins N/2 on k/(N dt); spectrum vs numpy.fft of the "
-                    "explicitly zero-padded record (1e-12*dt*sum|x|); object vs array level (exact)",
+                    "explicitly zero-padded record and vs the defining sum at sampled bins; Parseval; object vs array level within tolerance",
              exhaustive_note="all listed lengths", quick_shards=2)
 def giant_lengths(case, ctx):
     n = 2 ** case["k"] + case["j"]
     dt = 0.005
     x = np.random.RandomState(case["k"] * 7 + case["j"] + 3).standard_normal(n)
+    rec = Rec(x, x)
     ctx.nt(True)
     ctx.cls("j=%d" % case["j"])
     sig = ctx.lib(eqsig.Signal, x, dt)
-    sumabs = float(np.sum(np.abs(x)))
     N0 = next_pow2(n)
-    _check_spectrum(ctx, "Signal.fa_spectrum", ctx.lib(lambda: sig.fa_spectrum), ctx.lib(lambda: sig.fa_freqs), x, dt, N0, sumabs)
-    gs, gf = ctx.lib(fr.generate_fa_spectrum, sig)
-    ctx.equal(gs, sig.fa_spectrum, "generate_fa_spectrum vs object (npts=%d)" % n)
-    ctx.equal(gf, sig.fa_freqs, "generate_fa_spectrum frequencies vs object (npts=%d)" % n)
+    s0, f0 = ctx.lib(lambda: sig.fa_spectrum), ctx.lib(lambda: sig.fa_freqs)
+    _check_spectrum(ctx, "Signal.fa_spectrum", s0, f0, rec, dt, N0, bins=_seam_bins(N0 // 2, n, 12), parseval=True)
+    _agree(ctx, "generate_fa_spectrum vs object (npts=%d)" % n, ctx.lib(fr.generate_fa_spectrum, sig), s0, f0, rec, dt, N0)
+    _check_dominant(ctx, "max_fa_period (npts=%d)" % n, sig, rec, dt, [N0])
+    if case["k"] <= 19:
+        _check_inverse(ctx, "default spectrum (npts=%d)" % n, np.array(s0), rec, dt, N0, "default")
     ctx.lib(sig.gen_fa_spectrum, p2_plus=1)
-    _check_spectrum(ctx, "gen_fa_spectrum(p2_plus=1)", sig.fa_spectrum, sig.fa_freqs, x, dt, 2 * N0, sumabs)
+    _check_spectrum(ctx, "gen_fa_spectrum(p2_plus=1)", sig.fa_spectrum, sig.fa_freqs, rec, dt, 2 * N0)
     us, uf = ctx.lib(fr.calc_fa_spectrum, sig)
-    _check_spectrum(ctx, "calc_fa_spectrum (unpadded)", us, uf, x, dt, n, sumabs)
+    _check_spectrum(ctx, "calc_fa_spectrum (unpadded)", us, uf, rec, dt, n, bins=_seam_bins(n // 2, n + 1, 8))
+
+
+# ---------------------------------------------------------------------------
+# mid-range sizes and option crosses (notes/brief_midrange.md).  A code path that exists only inside a window of sizes (padding to a
+# fast FFT length for long records, a blocked transform, a spectrum cache kept for mid-size records) is invisible between the drawn
+# lengths (<= 2500 / 9000) and the giant ones (>= 2^14 - 1, and only 2^k + j there).  Size dimensions of the property: the record
+# length npts, the transform length N (requested n, or p2_plus), the length of the one-sided spectrum handed to the inverse helper.
+# Every bin / sample of every output is compared (O(N log N)); a hashed sample of bins is also compared with the defining sum.
+
+_MID_DTS = [0.0025, 0.004, 0.005, 0.01, 0.02, 1.0 / 128, 0.05, 2]
+_MID_CONT = ["int", "list", "view", "negstride", "readonly"]
+
+
+def _mid_record(n, seed, kind="burst"):
+    """Ordinary, nowhere-zero data whose every stretch is distinct, with a non-zero mean: noise x envelope + sine + offset."""
+    rs = np.random.RandomState(seed % (2 ** 31 - 1))
+    t = (np.arange(n) + 1.0) / n
+    if kind == "walk":
+        x = np.cumsum(rs.standard_normal(n)) / math.sqrt(n) + 0.1 * rs.standard_normal(n) + 0.02
+    else:
+        env = 0.15 + 1.8 * (4 * t) ** 2 * np.exp(-4 * t)
+        x = rs.standard_normal(n) * env + 0.3 * np.sin(2 * math.pi * (5 + seed % 23) * t + 0.7) + 0.05
+    return x * 10.0 ** (seed % 5 - 2)
+
+
+def _mid_tone(n, seed, dc):
+    """A record for the dominant period: zero-mean burst + a tone on a high bin of the default grid (or DC-dominated when dc)."""
+    x = _mid_record(n, seed)
+    if dc:
+        return x + 3.0 * float(np.max(np.abs(x)))
+    x = x - np.mean(x)
+    N = next_pow2(n)
+    k0 = _hint(max(2, N // 64), N // 2 - 1, seed, "k0")
+    amp = [0.05, 1.0, 20.0][seed % 3] * float(np.std(x))
+    return x + amp * np.cos(2 * math.pi * k0 * np.arange(n) / N + 0.1 * (seed % 60))
+
+
+def _mid_container(a, how):
+    if how == "f64":
+        return Rec(a, a)
+    if how == "int":
+        arg = np.array(np.round(a * (1e5 / float(np.max(np.abs(a))))), dtype=np.int64)
+        return Rec(arg, arg.astype(float))
+    arg = gen.as_container({"as": how}, a)
+    return Rec(arg, np.array(arg, dtype=float))
+
+
+def _mid_sizes(tier, tag, lo=2000):
+    if tier == "quick":
+        return gen.size_ladder(lo, 300000, 14, tag, mined_limit=8)
+    return gen.size_ladder(lo, 2000000, 36, tag + ":t", mined_limit=24)
+
+
+def _mid_enum(tier, shard, nshards):
+    for i, n in enumerate(_mid_sizes(tier, "c06:n")):
+        if i % nshards == shard:
+            h = _hh(gen.run_seed(), "c06:mid", i, n)
+            yield {"n": int(n), "seed": h % (2 ** 31 - 1), "dt": _MID_DTS[h % len(_MID_DTS)], "i": i}
+
+
+def _req_n(n, seed, tag):
+    """A requested transform length >= n: just above, a non-round multiple, or far above; odd or even."""
+    mode = _hh(seed, tag, "mode") % 4
+    if mode == 3 and n > 60000:
+        mode = 1
+    if mode == 0:
+        return n + _hh(seed, tag) % 7
+    if mode == 1:
+        return int(n * (1.05 + 0.9 * _hu(seed, tag))) + 1
+    if mode == 2:
+        return 2 * n + _hh(seed, tag) % 5 - 1
+    return int(n * (2.0 + 2.5 * _hu(seed, tag)))
+
+
+@enum_clause(CLAUSES, "mid-range", _mid_enum, quick_shards=4,
+             rule="record lengths: one per logarithmic bin of [2 000, 300 000] (14 bins; thorough 36 bins to 2 000 000) placed by VERIF_SEED, plus "
+                  "lengths c-1, c, c+1, 2c+1, 3c+2 for integer literals c of the tree under test; at every length: the default spectrum (hashed "
+                  "first attribute, Signal / AccSignal, container variant), p2_plus, requested n (odd / even, just above to 4.5 npts), both "
+                  "options, both unpadded array-level functions, the inverse helper (N a power of two and not), the dominant period (tone on a "
+                  "high bin / DC-dominated), linearity, trailing zeros, a history (non-default spectrum, default restored, new record of "
+                  "another length through reset_values); non-trivial = always",
+             oracle="reference model on every bin / sample of every output (numpy.fft of the explicitly padded record), the defining sum at ~20 "
+                    "hashed bins incl. block seams, Parseval; entry points agree within twice the value tolerance",
+             exhaustive_note="the laddered and mined lengths x every entry point")
+def mid_range(case, ctx):
+    n, seed, dt = int(case["n"]), int(case["seed"]), case["dt"]
+    ctx.nt(True)
+    how = (["f64"] * 3 + _MID_CONT)[(seed // 7) % 8]
+    rec = _mid_container(_mid_record(n, seed, "walk" if seed % 5 == 0 else "burst"), how)
+    cls = eqsig.AccSignal if seed % 2 else eqsig.Signal
+    ctx.cls(gen.size_class(n), "as=" + how, cls.__name__, "npts-odd" if n % 2 else "npts-even")
+    form = core.call_form(case)
+    sig = ctx.lib(cls, rec.arg, dt)
+    # 1. default spectrum, any attribute first
+    N0 = next_pow2(n)
+    first = _FIRST[(seed // 3) % 4]
+    ctx.cls("first=" + first)
+    got_first = np.array(ctx.lib(lambda: getattr(sig, first)))
+    s0, f0 = np.array(ctx.lib(lambda: sig.fa_spectrum)), np.array(ctx.lib(lambda: sig.fa_freqs))
+    _check_spectrum(ctx, "%s.fa_spectrum" % cls.__name__, s0, f0, rec, dt, N0, bins=_seam_bins(N0 // 2, seed), parseval=True)
+    want_first = {"fa_spectrum": s0, "fa_freqs": f0, "fa_frequencies": f0, "fa_spectrum_abs": np.abs(s0)}[first]
+    ctx.close(got_first, want_first, 2 * rec.tol(N0, dt) if "spectrum" in first else 8 * EPS * f0, "%s read first on a fresh object (npts=%d)" % (first, n))
+    ctx.close(np.asarray(ctx.lib(lambda: sig.fa_spectrum_abs)), np.abs(s0), 4 * EPS * np.abs(s0), "fa_spectrum_abs vs |fa_spectrum| (npts=%d)" % n)
+    _agree(ctx, "generate_fa_spectrum(sig) vs object (npts=%d)" % n, ctx.libf(form, fr.generate_fa_spectrum, ["n_pad"], sig, n_pad=True), s0, f0, rec, dt, N0)
+    _check_dominant(ctx, "max_fa_period (npts=%d, default spectrum)" % n, sig, rec, dt, [N0])
+    # 2. the inverse helper on the default spectrum (N a power of two)
+    _check_inverse(ctx, "default spectrum (npts=%d)" % n, ctx.lib(lambda: sig.fa_spectrum), rec, dt, N0, ["default", "signal", "acc"][seed % 3], form)
+    _check_spectrum(ctx, "the object's spectrum after it was passed to the inverse helper", ctx.lib(lambda: sig.fa_spectrum), ctx.lib(lambda: sig.fa_freqs), rec, dt, N0)
+    # 3. p2_plus, object and array level
+    p2 = 1 + (seed // 5) % (3 if N0 <= 2 ** 17 else 2 if N0 <= 2 ** 19 else 1)
+    Np = next_pow2(n, p2)
+    ctx.libf(form, sig.gen_fa_spectrum, ["p2_plus"], p2_plus=p2)
+    sp, fp = np.array(sig.fa_spectrum), np.array(sig.fa_freqs)
+    _check_spectrum(ctx, "gen_fa_spectrum(p2_plus=%d)" % p2, sp, fp, rec, dt, Np, bins=_seam_bins(Np // 2, seed + 1, 8))
+    _agree(ctx, "calc_fa_spectrum(p2_plus=%d) vs object (npts=%d)" % (p2, n), ctx.lib(fr.calc_fa_spectrum, sig, p2_plus=p2), sp, fp, rec, dt, Np)
+    _agree(ctx, "calc_fa_spectrum(p2_plus=0) vs default (npts=%d)" % n, ctx.lib(fr.calc_fa_spectrum, sig, p2_plus=0), s0, f0, rec, dt, N0)
+    _check_dominant(ctx, "max_fa_period (npts=%d, after gen_fa_spectrum(p2_plus=%d))" % (n, p2), sig, rec, dt, [Np, N0])
+    # 4. requested n, object and array level; both options
+    Nr = _req_n(n, seed, "nr")
+    ctx.cls("N-odd" if Nr % 2 else "N-even")
+    ctx.lib(sig.gen_fa_spectrum, n=Nr)
+    sr, frq = np.array(sig.fa_spectrum), np.array(sig.fa_freqs)
+    _check_spectrum(ctx, "gen_fa_spectrum(n=%d)" % Nr, sr, frq, rec, dt, Nr, bins=_seam_bins(Nr // 2, seed + 2, 10), parseval=True)
+    _agree(ctx, "calc_fa_spectrum(n=%d) vs object (npts=%d)" % (Nr, n), ctx.libf(form, fr.calc_fa_spectrum, ["n"], sig, n=Nr), sr, frq, rec, dt, Nr)
+    Nr2 = _req_n(n, seed, "nr2")
+    ctx.libf(form, sig.gen_fa_spectrum, ["p2_plus", "n"], p2_plus=p2, n=Nr2)
+    sb, fb = np.array(sig.fa_spectrum), np.array(sig.fa_freqs)
+    Nb = _check_spectrum_any(ctx, "gen_fa_spectrum(p2_plus=%d, n=%d)" % (p2, Nr2), sb, fb, rec, dt,
+                             _both_N(ctx, "gen_fa_spectrum(p2_plus=%d, n=%d)" % (p2, Nr2), sb, n, p2, Nr2))
+    cb = ctx.libf(form, fr.calc_fa_spectrum, ["n", "p2_plus"], sig, n=Nr2, p2_plus=p2)
+    ctx.check(len(np.asarray(cb[0])) == len(sb), "calc_fa_spectrum(n=%d, p2_plus=%d) has %d bins, gen_fa_spectrum(p2_plus=%d, n=%d) has %d" % (
+        Nr2, p2, len(np.asarray(cb[0])), p2, Nr2, len(sb)))
+    _agree(ctx, "calc_fa_spectrum(n=%d, p2_plus=%d) vs object" % (Nr2, p2), cb, sb, fb, rec, dt, Nb)
+    # 5. the inverse helper on a spectrum of even N that is not a power of two
+    Ne = Nr + Nr % 2
+    if next_pow2(Ne) == Ne:
+        Ne += 2
+    Fe = np.array(ctx.lib(fr.calc_fa_spectrum, sig, n=Ne)[0])
+    _check_inverse(ctx, "calc_fa_spectrum(n=%d) (npts=%d)" % (Ne, n), Fe, rec, dt, Ne, ["acc", "default", "signal"][seed % 3], form)
+    # 6. unpadded array-level functions: N = npts
+    us, uf = ctx.lib(fr.calc_fa_spectrum, sig)
+    _check_spectrum(ctx, "calc_fa_spectrum (unpadded)", us, uf, rec, dt, n, bins=_seam_bins(n // 2, seed + 3), parseval=True)
+    _agree(ctx, "generate_fa_spectrum(n_pad=False) vs calc_fa_spectrum() (npts=%d)" % n, ctx.libf(form, fr.generate_fa_spectrum, ["n_pad"], sig, n_pad=False),
+           us, uf, rec, dt, n)
+    # 7. history: default restored; a new record of another length; then a non-default spectrum on it
+    ctx.lib(sig.generate_fa_spectrum)
+    _check_spectrum(ctx, "after generate_fa_spectrum() (default restored, npts=%d)" % n, ctx.lib(lambda: sig.fa_spectrum), ctx.lib(lambda: sig.fa_freqs), rec, dt, N0)
+    if seed % 3 == 0:
+        ctx.lib(sig.gen_fa_spectrum, n=Nr)
+    n2 = max(2, int(n * (0.4 + 1.2 * _hu(seed, "n2"))))
+    rec2 = Rec(None, _mid_tone(n2, seed // 3 + 1, dc=seed % 4 == 0))
+    ctx.lib(sig.reset_values, rec2.x)
+    N2 = next_pow2(n2)
+    second = _FIRST[(seed // 11) % 4]
+    ctx.lib(lambda: getattr(sig, second))
+    _check_spectrum(ctx, "after reset_values(record of %d samples) on an object that held %d (%s read first)" % (n2, n, second),
+                    ctx.lib(lambda: sig.fa_spectrum), ctx.lib(lambda: sig.fa_freqs), rec2, dt, N2, parseval=True)
+    _check_dominant(ctx, "max_fa_period (npts=%d, tone / DC record)" % n2, sig, rec2, dt, [N2])
+    # 8. linearity and trailing zeros at this length (default padding on one level, explicit n on the other)
+    b = _mid_record(n, seed // 3 + 2, "walk")
+    al = (-1.0) ** (seed % 2) * 10.0 ** (4 * _hu(seed, "al") - 2)
+    be = (-1.0) ** (seed // 2 % 2) * 10.0 ** (4 * _hu(seed, "be") - 2)
+    vcase = {"variant": ["default", "n", "p2", "unpadded"][(seed // 13) % 4], "p2": p2, "acc": bool(seed % 2), "padded": True}
+    Nn = Nr
+    sa, fa, N = _variant_spec(ctx, vcase, rec.x, dt, Nn)
+    sbb, _, _ = _variant_spec(ctx, vcase, b, dt, Nn)
+    sc, _, _ = _variant_spec(ctx, vcase, al * rec.x + be * b, dt, Nn)
+    terms = Rec(None, abs(al) * np.abs(rec.x) + abs(be) * np.abs(b))
+    ctx.close(sc, al * sa + be * sbb, 3 * terms.tol(N, dt), "linearity of the Fourier amplitude spectrum (variant %s, npts=%d)" % (vcase["variant"], n))
+    room = {"default": N0 - n, "p2": N0 - n, "n": Nn - n, "unpadded": 0}[vcase["variant"]]
+    z = int(room * _hu(seed, "z"))
+    if z > 0:
+        ctx.cls("trailing-zeros")
+        s2, f2, _ = _variant_spec(ctx, vcase, np.concatenate([rec.x, np.zeros(z)]), dt, Nn)
+        ctx.close(s2, sa, 2 * rec.tol(N, dt), "spectrum after appending %d zeros (same N=%d, variant %s, npts=%d)" % (z, N, vcase["variant"], n))
+        ctx.close(f2, fa, 8 * EPS * np.abs(fa), "frequencies after appending zeros (same N=%d, npts=%d)" % (N, n))
+
+
+def _n_enum(tier, shard, nshards):
+    for i, N in enumerate(_mid_sizes(tier, "c06:N", lo=3000)):
+        if i % nshards == shard:
+            h = _hh(gen.run_seed(), "c06:midN", i, N)
+            yield {"N": int(N), "seed": h % (2 ** 31 - 1), "dt": _MID_DTS[h % len(_MID_DTS)], "i": i}
+
+
+@enum_clause(CLAUSES, "mid-range-n", _n_enum, quick_shards=4,
+             rule="transform lengths N (requested n; the inverse helper's 2 len(fas)): the ladder / mined sizes of `mid-range` from 3 000, each "
+                  "with a record of hashed length between 2 samples and N (log-uniform): object and array level, the inverse helper when N is even "
+                  "(and on N+1 otherwise), the dominant period on the non-default spectrum; non-trivial = always",
+             oracle="as `mid-range` (every bin; the defining sum at hashed bins; Parseval)",
+             exhaustive_note="the laddered and mined transform lengths")
+def mid_range_n(case, ctx):
+    N, seed, dt = int(case["N"]), int(case["seed"]), case["dt"]
+    n = _hint(2, N, seed, "npts") if seed % 4 else N - seed % 3
+    n = max(2, min(N, n))
+    ctx.nt(True)
+    rec = Rec(None, _mid_tone(n, seed, dc=seed % 5 == 0) if n >= 64 else _mid_record(n, seed))
+    cls = eqsig.AccSignal if seed % 2 else eqsig.Signal
+    form = core.call_form(case)
+    ctx.cls(gen.size_class(n), cls.__name__, "N-odd" if N % 2 else "N-even", "N>=8npts" if N >= 8 * n else None)
+    sig = ctx.lib(cls, rec.x, dt)
+    if seed % 3 == 0:
+        ctx.lib(lambda: sig.fa_spectrum)  # with or without the default spectrum cached before
+    ctx.lib(sig.gen_fa_spectrum, n=N)
+    s, f = np.array(ctx.lib(lambda: sig.fa_spectrum)), np.array(ctx.lib(lambda: sig.fa_freqs))
+    _check_spectrum(ctx, "gen_fa_spectrum(n=%d)" % N, s, f, rec, dt, N, bins=_seam_bins(N // 2, seed), parseval=True)
+    _agree(ctx, "calc_fa_spectrum(n=%d) vs object (npts=%d)" % (N, n), ctx.libf(form, fr.calc_fa_spectrum, ["n"], sig, n=N), s, f, rec, dt, N)
+    _check_dominant(ctx, "max_fa_period (npts=%d, after gen_fa_spectrum(n=%d))" % (n, N), sig, rec, dt, [N, next_pow2(n)])
+    Ne = N + N % 2
+    Fe = s if Ne == N else np.array(ctx.lib(fr.calc_fa_spectrum, sig, n=Ne)[0])
+    _check_inverse(ctx, "spectrum of N=%d points (npts=%d)" % (Ne, n), Fe, rec, dt, Ne, ["signal", "acc", "default"][seed % 3], form)
+
+
+def _opt_enum(tier, shard, nshards):
+    sizes = gen.ladder(300, 20000, 6 if tier == "quick" else 18, "c06:opt" + tier)
+    cases = []
+    for acc in (False, True):
+        for form in ("kw", "pos"):
+            for entry in ("gen", "calc"):
+                for p2 in (None, 0, 1, 2, 3):
+                    for nk in (None, "odd", "even"):
+                        cases.append({"entry": entry, "p2": p2, "nk": nk, "acc": acc, "form": form})
+            for n_pad in (None, True, False):
+                cases.append({"entry": "generate", "n_pad": n_pad, "acc": acc, "form": form})
+            for stype in ("default", "signal", "acc", "acc-signal"):
+                for nk in ("pow2", "even"):
+                    cases.append({"entry": "inverse", "stype": stype, "nk": nk, "acc": acc, "form": form})
+            for state in ("default", "p2", "n"):
+                cases.append({"entry": "dominant", "state": state, "acc": acc, "form": form})
+        for first in _FIRST:
+            cases.append({"entry": "lazy", "first": first, "acc": acc, "form": "kw"})
+    for k, c in enumerate(cases):
+        if k % nshards == shard:
+            h = _hh(gen.run_seed(), "c06:opt", k)
+            yield dict(c, n=int(sizes[h % len(sizes)]), seed=h % (2 ** 31 - 1), dt=_MID_DTS[k % len(_MID_DTS)], how=(["f64"] + _MID_CONT)[(h // 7) % 6])
+
+
+@enum_clause(CLAUSES, "mid-range-options", _opt_enum, quick_shards=2,
+             rule="cross product of the optional arguments: {gen_fa_spectrum, calc_fa_spectrum} x p2_plus {omitted, 0..3} x n {omitted, odd, even}; "
+                  "generate_fa_spectrum n_pad {omitted, True, False}; fas2signal stype {omitted, 'signal', 'acc', other} x N {power of two, even}; "
+                  "max_fa_period on {default, p2_plus, n} spectra; each lazy attribute first; all x {Signal, AccSignal} x {keyword, positional} "
+                  "with a hashed container variant; lengths from a ladder 300..20 000; dt incl. a python int",
+             oracle="reference model on every bin (as `definition`)",
+             exhaustive_note="the option cross product")
+def mid_range_options(case, ctx):
+    n, seed, dt = int(case["n"]), int(case["seed"]), case["dt"]
+    entry, form = case["entry"], case["form"]
+    rec = _mid_container(_mid_tone(n, seed, dc=seed % 6 == 0) if entry == "dominant" else _mid_record(n, seed), case["how"])
+    n = rec.n
+    cls = eqsig.AccSignal if case["acc"] else eqsig.Signal
+    ctx.nt(True)
+    ctx.cls("entry=" + entry, "as=" + case["how"], cls.__name__)
+    sig = ctx.lib(cls, rec.arg, dt)
+    N0 = next_pow2(n)
+    if entry in ("gen", "calc"):
+        p2, nk = case["p2"], case["nk"]
+        Nr = None if nk is None else _req_n(n, seed, "o")
+        if Nr is not None and (Nr % 2 == 0) != (nk == "even"):
+            Nr += 1
+        kw = {}
+        if p2 is not None:
+            kw["p2_plus"] = p2
+        if Nr is not None:
+            kw["n"] = Nr
+        ctx.cls("p2=%s" % p2, "n=%s" % nk)
+        if entry == "gen":
+            if seed % 2:
+                ctx.lib(lambda: sig.fa_spectrum)
+            ctx.libf(form, sig.gen_fa_spectrum, ["p2_plus", "n"], **kw)
+            s, f = np.array(ctx.lib(lambda: sig.fa_spectrum)), np.array(ctx.lib(lambda: sig.fa_freqs))
+            what = "gen_fa_spectrum(%s)" % kw
+        else:
+            s, f = ctx.libf(form, fr.calc_fa_spectrum, ["n", "p2_plus"], sig, **kw)
+            what = "calc_fa_spectrum(%s)" % kw
+        cands = None
+        if Nr is not None and p2 is not None:
+            cands = _both_N(ctx, what, s, n, p2, Nr)
+            N = None
+            # the other level picks the same one
+            if entry == "gen":
+                o = ctx.lib(fr.calc_fa_spectrum, sig, n=Nr, p2_plus=p2)[0]
+            else:
+                ctx.lib(sig.gen_fa_spectrum, p2_plus=p2, n=Nr)
+                o = sig.fa_spectrum
+            ctx.check(len(np.asarray(o)) == len(np.asarray(s)), "%s has %d bins, the other level %d (npts=%d)" % (what, len(np.asarray(s)), len(np.asarray(o)), n))
+        elif Nr is not None:
+            N = Nr
+        elif p2 is not None:
+            N = next_pow2(n, p2)
+        else:
+            N = N0 if entry == "gen" else n
+        _check_spectrum_any(ctx, what, s, f, rec, dt, cands or [N], parseval=True)
+    elif entry == "generate":
+        kw = {} if case["n_pad"] is None else {"n_pad": case["n_pad"]}
+        s, f = ctx.libf(form, fr.generate_fa_spectrum, ["n_pad"], sig, **kw)
+        _check_spectrum(ctx, "generate_fa_spectrum(%s)" % kw, s, f, rec, dt, n if case["n_pad"] is False else N0, parseval=True)
+    elif entry == "inverse":
+        if case["nk"] == "pow2":
+            N = N0
+            F = np.array(ctx.lib(lambda: sig.fa_spectrum))
+        else:
+            N = _req_n(n, seed, "i")
+            N += N % 2
+            F = np.array(ctx.lib(fr.calc_fa_spectrum, sig, n=N)[0])
+        _check_inverse(ctx, "N=%d (npts=%d)" % (N, n), F, rec, dt, N, case["stype"], form)
+    elif entry == "dominant":
+        Ns = [N0]
+        if case["state"] == "p2":
+            ctx.lib(sig.gen_fa_spectrum, p2_plus=1 + seed % 2)
+            Ns = [next_pow2(n, 1 + seed % 2), N0]
+        elif case["state"] == "n":
+            Nr = _req_n(n, seed, "d")
+            ctx.lib(sig.gen_fa_spectrum, n=Nr)
+            Ns = [Nr, N0]
+        _check_dominant(ctx, "max_fa_period (%s spectrum, npts=%d)" % (case["state"], n), sig, rec, dt, Ns)
+    else:
+        first = case["first"]
+        got = np.array(ctx.lib(lambda: getattr(sig, first)))
+        s0, f0 = np.array(ctx.lib(lambda: sig.fa_spectrum)), np.array(ctx.lib(lambda: sig.fa_freqs))
+        _check_spectrum(ctx, "%s.fa_spectrum (%s read first)" % (cls.__name__, first), s0, f0, rec, dt, N0)
+        want = {"fa_spectrum": s0, "fa_freqs": f0, "fa_frequencies": f0, "fa_spectrum_abs": np.abs(s0)}[first]
+        ctx.close(got, want, 2 * rec.tol(N0, dt) if "spectrum" in first else 8 * EPS * f0, "%s read first on a fresh object (npts=%d)" % (first, n))
